@@ -95,6 +95,15 @@ def run(ctx):
                 if e:
                     keys[nm] = bytes(rng.getrandbits(8) for _ in range(32))
                     policy.add_column(ColDesc(ks, table, nm), keys[nm], t[0])
+            # the reader may be another policy object with the same keys and an IV of its own (another process, a restart): the IV
+            # that matters for reading is the one stored in front of each cell
+            reader = policy
+            if rng.random() < 0.4:
+                riv = bytes(rng.getrandbits(8) for _ in range(16)) if rng.random() < 0.5 else None
+                reader = AES256ColumnEncryptionPolicy(iv=riv) if riv is not None else AES256ColumnEncryptionPolicy()
+                for nm, t, e in zip(names, types, enc_flags):
+                    if e:
+                        reader.add_column(ColDesc(ks, table, nm), keys[nm], t[0])
             # same column name in another table / keyspace is NOT encrypted
             for nm in names:
                 if policy.contains_column(ColDesc(ks, table, nm)) != (nm in keys) or policy.contains_column(ColDesc(ks, table + 'x', nm)):
@@ -109,7 +118,9 @@ def run(ctx):
         result_md = [(ks, table, nm, G.driver_type(('blob',) if e else t)) for nm, t, e in zip(names, types, enc_flags)]
         prepared = PreparedStatement(cols, b'qid', None, 'INSERT ...', ks, pv, result_md, None, column_encryption_policy=policy)
         hcount += 1
-        handler = type('C39Handler%d' % hcount, (_ProtocolHandler,), {"column_encryption_policy": policy})
+        handler = type('C39Handler%d' % hcount, (_ProtocolHandler,), {"column_encryption_policy": reader})
+        if reader is not policy and any(enc_flags):
+            ctx.count("results_read_by_a_second_policy_object_with_its_own_iv")
         nrows = rng.randint(1, 4)
         rows_canon, rows_cells = [], []
         wit0 = {"pv": pv, "columns": [(nm, t[0], "encrypted" if e else "plain") for nm, t, e in zip(names, types, enc_flags)]}
@@ -286,7 +297,8 @@ def run(ctx):
 
     ctx.floor_distinct = 3000 if ctx.quick else 100000
     fl = {"encrypted_values_decrypt_to_reference": 5000, "plain_values_equal": 3000, "result_bodies_decoded": 500, "encrypted_cells_equal": 2000,
-          "nulls_bound_encrypted_column": 500, "encode_and_encrypt_equal": 300}
+          "nulls_bound_encrypted_column": 500, "encode_and_encrypt_equal": 300,
+          "results_read_by_a_second_policy_object_with_its_own_iv": 200}
     for t in TYPES:
         fl["encrypted_type:" + t] = 50
     ctx.floor_counters = fl
